@@ -258,3 +258,32 @@ Proof.
   unfold lorH. cbn [fold_left].
   wire_k z 9%nat bw8 (envk_ok8 z 9 Hb) bw8_le.
 Qed.
+
+(* ---- the general theorem: the model decoder is the reference decoder ---- *)
+Lemma hd_byte_at z : hd 0 z = byte_at z 0.
+Proof. destruct z; reflexivity. Qed.
+Lemma byte_at_tl z i : byte_at (tl z) i = byte_at z (S i).
+Proof. destruct z; destruct i; reflexivity. Qed.
+
+Ltac leaf H L :=
+  rewrite L by (first [ intros ? ?; apply H; lia | lia ]); reflexivity.
+
+Theorem chained_get_is_decode z :
+  (forall i, N.of_nat i < fst (chained_decode z) -> byte_at z i < 256) ->
+  chained_get z = chained_decode z.
+Proof.
+  unfold chained_decode. cbn [ch_loop]. rewrite !hd_byte_at. repeat rewrite byte_at_tl.
+  destruct (byte_at z 0 <? 128) eqn:E0; cbn [fst]; intro H.
+  { rewrite chained_get_ret1 by lia. reflexivity. }
+  revert H. destruct (byte_at z 1 <? 128) eqn:E1; cbn [fst]; intro H. { leaf H chained_get_ret2. }
+  revert H. destruct (byte_at z 2 <? 128) eqn:E2; cbn [fst]; intro H. { leaf H chained_get_ret3. }
+  revert H. destruct (byte_at z 3 <? 128) eqn:E3; cbn [fst]; intro H. { leaf H chained_get_ret4. }
+  revert H. destruct (byte_at z 4 <? 128) eqn:E4; cbn [fst]; intro H. { leaf H chained_get_ret5. }
+  revert H. destruct (byte_at z 5 <? 128) eqn:E5; cbn [fst]; intro H. { leaf H chained_get_ret6. }
+  revert H. destruct (byte_at z 6 <? 128) eqn:E6; cbn [fst]; intro H. { leaf H chained_get_ret7. }
+  revert H. destruct (byte_at z 7 <? 128) eqn:E7; cbn [fst]; intro H. { leaf H chained_get_ret8. }
+  leaf H chained_get_ret9.
+Qed.
+
+Corollary chained_get_is_decode_ok z : bytes_ok z -> chained_get z = chained_decode z.
+Proof. intro H. apply chained_get_is_decode. intros i _. apply byte_at_lt. exact H. Qed.
